@@ -141,6 +141,10 @@ def shard_main(shard):
             seen_here.add(sig)
             lst = out['violations'].setdefault(sig, [])
             if len(lst) < MAX_VIOL_PER_SIG:
+                # (what the code under test left in an entry may be anything:
+                # the record must travel between processes and into a file)
+                detail = json.loads(json.dumps(detail, default=repr,
+                                               skipkeys=True))
                 lst.append({'class': cls, 'signature': sig, 'detail': detail,
                             'scenario': scn,
                             'preempts': [list(p) for p in sim.preempts],
